@@ -1,12 +1,12 @@
 """C04 — a key is used only for callers entitled to it.
 TLC: spec/Authz.tla exhaustive over configurations x requests (OnlyEntitled, RefusedOtherwise, EntitledServed,
 ListingExact, UntrustedHeadersInert, AddrIsTrue, PureAgrees) + negative controls. Binding (A): for each generated
-configuration a real server is built from real YAML and every request of the request space (4032) is driven
+configuration a real server is built from real YAML and every request of the request space (6720) is driven
 through Handler(); status, calls reaching the (fake) token, listing and audited client address are compared."""
 import json, os, concurrent.futures as cf
 from vlib.common import *
 
-NEG = ["NoRoleCheck", "AliasOwnRoles", "TwoHops", "HeaderFromAnyone", "ListHidden", "IgnoreEKU", "TouchFirst"]
+NEG = ["NoRoleCheck", "AliasOwnRoles", "TwoHops", "HeaderFromAnyone", "PrefixTrust6", "ListHidden", "IgnoreEKU", "TouchFirst"]
 
 
 def _replay(run, vh, behs, label):
@@ -61,7 +61,7 @@ def run(t):
     _replay(run, vh, g.beh, "authz")
     run.cov["rule"] = (f"configurations = 3 key entries over 18 shapes (real x role subsets x hide, token-less, alias to any entry or "
                        f"to a missing one x hide) x client role choices, sampled by hash % {mod} = {sel} ({len(g.beh)} of ~35k); for each, "
-                       "ALL 4032 requests (endpoint x key name x peer trusted/untrusted x X-Forwarded-For x TLS identity x "
+                       "ALL 6720 requests (endpoint x key name x peer {untrusted, IPv4 proxy, its classful neighbour, bare-IPv6 proxy, a host in its /32} x X-Forwarded-For x TLS identity x "
                        "Ssl-Client-Cert identity incl. malformed) through the real Handler; expected outcome computed by the "
                        "specification; non-trivial = request succeeds or comes from the trusted proxy")
     run.cov["exhaustive"] = False
